@@ -360,6 +360,9 @@ fn check_docs(prop: &str, docs: &[Vec<u8>]) -> Option<String> {
             if let Some(e) = cmp_order(&v, &infer(&occ), "") {
                 return Some(e);
             }
+            if let Some(e) = switch_changes_only_order(&root) {
+                return Some(e);
+            }
             if let Some(e) = render_order(&root, &infer(&occ)) {
                 return Some(e);
             }
@@ -398,6 +401,27 @@ fn uniq_deep(v: &V, path: &str) -> Option<String> {
         if let Some(e) = uniq_deep(c, &p) {
             return Some(e);
         }
+    }
+    None
+}
+
+/// C09, third sentence: switching the sort option changes nothing but the orders - the same structs with the same fields
+/// (identifier, type, serde name), whatever the names are (colliding identifiers included).
+fn switch_changes_only_order(root: &Element<String>) -> Option<String> {
+    let mut o = Options::quick_xml_de();
+    o.sort = SortBy::XmlName;
+    let norm = |out: &str| -> Vec<(String, Vec<(String, String, String)>)> {
+        let mut st = parse_rendered_full(out);
+        for x in st.iter_mut() { x.1.sort(); }
+        st.sort();
+        st
+    };
+    let a = norm(&root.to_serde_struct(&Options::quick_xml_de()));
+    let b = norm(&root.to_serde_struct(&o));
+    if a != b {
+        let d: Vec<_> = a.iter().filter(|x| !b.contains(x)).take(2).collect();
+        let e: Vec<_> = b.iter().filter(|x| !a.contains(x)).take(2).collect();
+        return Some(format!("switching the sort option changes more than the orders: unsorted has {:?}, sort-by-name has {:?}", d, e));
     }
     None
 }
